@@ -27,7 +27,17 @@ func (f *GitFilter) Clean(reader io.Reader, fileName string, fileSize int64, cb 
 	var tmp *os.File
 	var exts []*PointerExtension
 	if len(extensions) > 0 {
-		request := &pipeRequest{"clean", reader, fileName, extensions}
+		// Pointer text is passed through, not cleaned a second time,
+		// with extensions as without them (see copyToTemp).
+		ptr, buf, derr := DecodeFrom(reader)
+		by := make([]byte, blobSizeCutoff)
+		n, rerr := buf.Read(by)
+		by = by[:n]
+		if rerr != nil || (derr == nil && len(by) < blobSizeCutoff) {
+			return nil, errors.NewCleanPointerError(ptr, by)
+		}
+
+		request := &pipeRequest{"clean", io.MultiReader(bytes.NewReader(by), reader), fileName, extensions}
 
 		var response pipeResponse
 		if response, err = pipeExtensions(f.cfg, request); err != nil {
